@@ -44,7 +44,8 @@ type Session struct {
 	Pre      int // bytes read before the first announcement
 	Panic    interface{}
 	CapHit   bool
-	MaxDraws int // abort (CapHit) after this many draws; 0 = 1<<20
+	NoRep    *NoRepresentative // the engine could not learn a word for a wanted index (never a verdict on the code)
+	MaxDraws int               // abort (CapHit) after this many draws; 0 = 1<<20
 }
 
 func (s *Session) announce(n uint32) {
@@ -71,7 +72,9 @@ func (s *Session) announce(n uint32) {
 		}
 		c %= n
 		d.Choice = c
-		s.Tape.PushWord(s.Reps.Get(n, c))
+		if !(n == 1 && s.Reps.ZeroRead1()) {
+			s.Tape.PushWord(s.Reps.Get(n, c))
+		}
 	}
 	s.Draws = append(s.Draws, d)
 }
@@ -100,6 +103,8 @@ func (s *Session) Run(f func()) {
 		if r := recover(); r != nil {
 			if _, ok := r.(tape.CapExceeded); ok {
 				s.CapHit = true
+			} else if nr, ok := r.(NoRepresentative); ok {
+				s.NoRep = &nr
 			} else {
 				s.Panic = r
 			}
@@ -115,12 +120,18 @@ func (s *Session) IndexLevelOK() error {
 	if s.CapHit {
 		return &Inconclusive{"read cap exceeded"}
 	}
+	if s.NoRep != nil {
+		return &Inconclusive{fmt.Sprintf("no source word found that the sampler maps to index %d of %d", s.NoRep.J, s.NoRep.N)}
+	}
 	if s.Pre != 0 {
 		return &Inconclusive{fmt.Sprintf("%d random bytes read outside a bounded draw", s.Pre)}
 	}
 	for i, d := range s.Draws {
 		if d.Bound == 0 {
 			continue
+		}
+		if d.Bound == 1 && d.Bytes == 0 {
+			continue // a one-alternative draw needs no randomness
 		}
 		if d.Bytes != 4 {
 			return &Inconclusive{fmt.Sprintf("draw %d (bound %d) consumed %d bytes, want 4", i, d.Bound, d.Bytes)}
@@ -138,6 +149,21 @@ type Reps struct {
 	m      map[uint64]uint32
 	Alt    uint32 // rotates which representative is preferred
 	Probes int
+	zero1  int // 0 unknown, 1 the sampler reads nothing for bound 1, 2 it reads a word
+}
+
+// ZeroRead1 reports whether the sampler under test answers a draw with a single
+// alternative without reading from the source (learned by one probe).
+func (r *Reps) ZeroRead1() bool {
+	if r.zero1 == 0 {
+		res, c, ok := Probe(1, 0, 4*64)
+		if ok && c == 0 && res == 0 {
+			r.zero1 = 1
+		} else {
+			r.zero1 = 2
+		}
+	}
+	return r.zero1 == 1
 }
 
 // SharedReps is the process-wide store.
